@@ -38,7 +38,13 @@
 #include <climits>
 #include <cmath>
 #include <fcntl.h>
+#include <functional>
 #include <memory>
+#include <sys/mman.h>
+#include <sys/stat.h>
+#include <sys/wait.h>
+#include <thread>
+#include <unistd.h>
 
 #include "common/circuit.hpp"
 #include "common/harness.hpp"
@@ -291,6 +297,7 @@ struct Case {
   int effort = 0;
   int nZeroArea = 0;
   int redrawn = 0;
+  int netKind = 0;
 };
 
 static double uni(vh::Rng &g, double lo, double hi) { return lo + (hi - lo) * (g.range(0, 1 << 20) / (double)(1 << 20)); }
@@ -306,34 +313,129 @@ static bool inDomain(const Circuit &c, const vc::GenInfo &gi) {
   return mov;
 }
 
-static ColoquinteParameters genC06Params(vh::Rng &g, std::string &desc, int &effort, bool fullSteps) {
+static std::string describeParams(const ColoquinteParameters &p, int effort, bool knobs) {
+  const auto &gp = p.global;
+  std::ostringstream os;
+  os << "effort=" << effort << " seed=" << p.seed << " steps=" << gp.maxNbSteps << "/" << gp.nbInitialSteps << "/"
+     << gp.nbStepsBeforeRoughLegalization << " knobs=" << knobs << " net=" << (int)gp.continuousModel.netModel
+     << " cost=" << (int)gp.roughLegalization.costModel << " win=" << gp.roughLegalization.lineReoptSize << ","
+     << gp.roughLegalization.diagReoptSize << "," << gp.roughLegalization.squareReoptSize
+     << " uni=" << gp.roughLegalization.unidimensionalTransport << " blend=" << vc::exactDouble(gp.exportBlending)
+     << " bin=" << vc::exactDouble(gp.roughLegalization.binSize) << " margin=" << vc::exactDouble(gp.roughLegalization.sideMargin)
+     << " cgtol=" << vc::exactDouble(gp.continuousModel.conjugateGradientErrorTolerance)
+     << " approx=" << vc::exactDouble(gp.continuousModel.approximationDistance) << "*"
+     << vc::exactDouble(gp.continuousModel.approximationDistanceUpdateFactor)
+     << " cutoff=" << vc::exactDouble(gp.penalty.cutoffDistance) << "*" << vc::exactDouble(gp.penalty.cutoffDistanceUpdateFactor)
+     << " penalty=" << vc::exactDouble(gp.penalty.initialValue) << "*" << vc::exactDouble(gp.penalty.updateFactor)
+     << " gaptol=" << vc::exactDouble(gp.gapTolerance) << " disttol=" << vc::exactDouble(gp.distanceTolerance);
+  return os.str();
+}
+
+// The float recurrence of GlobalPlacer::run, recomputed from the parameters alone: penalty_ after
+// `updates` executions of `penalty_ *= penalty.updateFactor` (float times double, rounded to float).
+static float penaltyAfter(const ColoquinteParameters &p, long long updates) {
+  float pen = p.global.penalty.initialValue;
+  for (long long i = 0; i < updates && std::isfinite(pen); ++i) pen *= p.global.penalty.updateFactor;
+  return pen;
+}
+
+// KF-C06-1 classifier.  GlobalPlacer::run multiplies penalty_, penaltyCutoffDistance_ and
+// approximationDistance_ by their update factors once per loop step, without bound.  The effective
+// knobs after k updates are recomputed here from the parameters alone (penalty with the C++'s float
+// recurrence, the two distances in units of the average cell length); the finding applies iff they
+// have left the numeric box of the C06 statement (distances >= 0.1; the parameter check itself
+// refuses approximation distances above 1e3) or the penalty-to-cutoff ratio — the weight of the
+// penalty terms in the linear system — has reached 2^64 ~ sqrt(FLT_MAX), from where its square is
+// not a single-precision number (the conjugate-gradient solver works with squared norms).
+// KF-C06-2 classifier, from the circuit alone: some group of movable cells connected by nets (at
+// least one net of degree >= 2) has no pin on a fixed cell.  Before the penalty terms anchor the cells
+// (the solves of GlobalPlacer::runInitialLB) the linear system of such a group is singular, and the
+// conjugate-gradient solver can break down to NaN on it.
+static bool hasFloatingComponent(const Circuit &c) {
+  const int n = c.nbCells();
+  std::vector<int> parent(n);
+  for (int i = 0; i < n; ++i) parent[i] = i;
+  std::function<int(int)> find = [&](int a) { return parent[a] == a ? a : parent[a] = find(parent[a]); };
+  std::vector<char> hasNet(n, 0);
+  for (int net = 0; net < c.nbNets(); ++net) {
+    int np = c.nbPinsNet(net);
+    if (np < 2) continue;
+    int first = c.pinCell(net, 0);
+    for (int j = 0; j < np; ++j) {
+      int cell = c.pinCell(net, j);
+      hasNet[cell] = 1;
+      parent[find(cell)] = find(first);
+    }
+  }
+  std::vector<char> anchored(n, 0);
+  for (int i = 0; i < n; ++i)
+    if (c.isFixed(i)) anchored[find(i)] = 1;
+  for (int i = 0; i < n; ++i)
+    if (!c.isFixed(i) && hasNet[i] && !anchored[find(i)]) return true;
+  return false;
+}
+
+struct Drift { bool outOfBox = false; std::string text; };
+static Drift driftAfter(const ColoquinteParameters &p, long long k) {
+  const auto &gp = p.global;
+  double pen = penaltyAfter(p, k);
+  double apx = gp.continuousModel.approximationDistance * std::pow(gp.continuousModel.approximationDistanceUpdateFactor, (double)k);
+  double cut = gp.penalty.cutoffDistance * std::pow(gp.penalty.cutoffDistanceUpdateFactor, (double)k);
+  Drift d;
+  d.outOfBox = apx < 0.1 || apx > 1.0e3 || cut < 0.1 || !(pen / cut < 18446744073709551616.0);
+  std::ostringstream os;
+  os << "penalty " << pen << ", cutoff distance " << cut << ", approximation distance " << apx
+     << (d.outOfBox ? " (outside the numeric box)" : " (inside the numeric box)");
+  d.text = os.str();
+  return d;
+}
+
+static ColoquinteParameters genC06Params(vh::Rng &g, std::string &desc, int &effort, bool bigger) {
   effort = g.range(1, 9);
   ColoquinteParameters p(effort, (int)g.range(-1, 1000));
   auto &gp = p.global;
-  bool knobs = g.chance(3, 4);  // otherwise: effort defaults except the step limit
-  gp.maxNbSteps = g.range(1, 10);
-  if (g.chance(1, 10)) gp.maxNbSteps = g.range(11, 30);
-  if (!knobs && fullSteps && g.chance(1, 3)) gp.maxNbSteps = 400;  // the library default, with the effort's own knobs
+  bool knobs = g.chance(3, 4);  // otherwise: the effort's defaults (400 steps), sometimes with another step limit
+  // step limit: every effort's default is 400, which is also the largest value drawn
+  int sm = g.range(0, 9);
+  if (!knobs) {
+    if (sm < 3) gp.maxNbSteps = g.range(1, 10);
+  } else {
+    if (sm < 4) gp.maxNbSteps = g.range(1, 10);
+    else if (sm < 6) gp.maxNbSteps = g.range(11, 60);
+    else if (sm < 7) gp.maxNbSteps = g.range(61, 399);
+    else gp.maxNbSteps = 400;
+  }
   if (knobs) {
     gp.nbInitialSteps = std::min<int>(g.range(0, 2), gp.maxNbSteps - 1);
     gp.nbStepsBeforeRoughLegalization = g.range(1, 3);
-    gp.gapTolerance = g.chance(1, 3) ? 0.0 : uni(g, 0.0, 1.0);
-    gp.distanceTolerance = g.chance(1, 3) ? 0.0 : uni(g, 0.0, 4.0);
+    int tm = g.range(0, 5);  // the stop tests: defaults, disabled (0 is accepted), anything
+    if (tm == 0) gp.gapTolerance = 0.0;
+    else if (tm == 3 || tm == 4) gp.gapTolerance = logUni(g, 1.0e-3, 0.3);
+    else if (tm == 5) gp.gapTolerance = uni(g, 0.0, 1.0);
+    tm = g.range(0, 5);
+    if (tm == 0) gp.distanceTolerance = 0.0;
+    else if (tm >= 3) gp.distanceTolerance = uni(g, 0.0, 4.0);
     gp.penaltyUpdateDistance = logUni(g, 0.01, 100.0);
     gp.penaltyUpdateBackoff = uni(g, 1.0, 4.0);
     gp.noise = g.chance(1, 3) ? 0.0 : (g.chance(1, 2) ? 1.0e-4 : uni(g, 0.0, 2.0));
     auto &cm = gp.continuousModel;
     cm.netModel = g.chance(1, 2) ? NetModelOption::BoundToBound : NetModelOption::Star;
     cm.approximationDistance = logUni(g, 0.1, 100.0);
-    cm.approximationDistanceUpdateFactor = uni(g, 0.8, 1.2);
+    cm.approximationDistanceUpdateFactor = g.chance(1, 4) ? 1.0 : (g.chance(1, 6) ? (g.chance(1, 2) ? 0.8 : 1.2) : uni(g, 0.8, 1.2));
     cm.maxNbConjugateGradientSteps = g.chance(1, 4) ? g.range(1, 10) : g.range(10, 1000);
     cm.conjugateGradientErrorTolerance = logUni(g, 1.0e-6, 1.0);
     auto &pe = gp.penalty;
     pe.cutoffDistance = logUni(g, 0.1, 100.0);
-    pe.cutoffDistanceUpdateFactor = uni(g, 0.8, 1.2);
+    pe.cutoffDistanceUpdateFactor = g.chance(1, 4) ? 1.0 : (g.chance(1, 6) ? (g.chance(1, 2) ? 0.8 : 1.2) : uni(g, 0.8, 1.2));
     pe.areaExponent = uni(g, 0.49, 1.01);
     pe.initialValue = logUni(g, 1.0e-3, 10.0);
-    pe.updateFactor = uni(g, 1.01, 1.99);
+    // check() accepts the open interval (1, 2)
+    int um = g.range(0, 7);
+    if (um == 0) pe.updateFactor = 1.0 + 1.0 / (1 << 20);
+    else if (um == 1) pe.updateFactor = 2.0 - 1.0 / (1 << 20);
+    else if (um == 2) pe.updateFactor = uni(g, 1.5, 2.0 - 1.0 / (1 << 20));
+    else if (um >= 6) pe.updateFactor = uni(g, 1.0 + 1.0 / (1 << 20), 2.0 - 1.0 / (1 << 20));
+    // else: the effort's default (1.07 .. 1.23)
     pe.targetBlending = uni(g, (double)0.1f, 1.1);   // check() compares with the float literals 0.1f / 1.1f
     auto &rl = gp.roughLegalization;
     rl.costModel = (LegalizationModel)g.range(0, 5);
@@ -358,6 +460,7 @@ static ColoquinteParameters genC06Params(vh::Rng &g, std::string &desc, int &eff
     rl.sideMargin = g.chance(1, 2) ? 0.9 : uni(g, 0.0, 0.9);
     rl.coarseningLimit = logUni(g, 1.0, 1000.0);
   }
+  (void)bigger;
   int bm = g.range(0, 9);
   if (bm == 0) gp.exportBlending = 0.0;
   else if (bm == 1) gp.exportBlending = 1.0;
@@ -365,18 +468,46 @@ static ColoquinteParameters genC06Params(vh::Rng &g, std::string &desc, int &eff
   else if (bm == 3) gp.exportBlending = 0.5;
   else if (bm == 4) gp.exportBlending = g.chance(1, 2) ? -0.5 : 1.5;
   else gp.exportBlending = uni(g, -0.5, 1.5);
-  std::ostringstream os;
-  os << "effort=" << effort << " seed=" << p.seed << " steps=" << gp.maxNbSteps << "/" << gp.nbInitialSteps << "/"
-     << gp.nbStepsBeforeRoughLegalization << " knobs=" << knobs << " net=" << (int)gp.continuousModel.netModel
-     << " cost=" << (int)gp.roughLegalization.costModel << " win=" << gp.roughLegalization.lineReoptSize << ","
-     << gp.roughLegalization.diagReoptSize << "," << gp.roughLegalization.squareReoptSize
-     << " uni=" << gp.roughLegalization.unidimensionalTransport << " blend=" << vc::exactDouble(gp.exportBlending)
-     << " bin=" << vc::exactDouble(gp.roughLegalization.binSize) << " margin=" << vc::exactDouble(gp.roughLegalization.sideMargin)
-     << " cgtol=" << vc::exactDouble(gp.continuousModel.conjugateGradientErrorTolerance)
-     << " approx=" << vc::exactDouble(gp.continuousModel.approximationDistance)
-     << " cutoff=" << vc::exactDouble(gp.penalty.cutoffDistance);
-  desc = os.str();
+  desc = describeParams(p, effort, knobs);
   return p;
+}
+
+// nets of the generated circuit, chosen here (vc::genCircuit is called without nets) so that the
+// structures the stop test of GlobalPlacer::run depends on are all drawn:
+//   0 as vc::genCircuit (here 1 .. 2n+1 nets of degree 1-5 over random cells), 1 no net at all,
+//   2 only nets of degree 1, 3 every pin of every net on one cell (distinct offsets: constant,
+//   non-zero wirelength; or equal offsets: zero wirelength), 4 nets over fixed cells only
+static void addNets(vh::Rng &g, Circuit &c, int kind) {
+  const int n = c.nbCells();
+  auto pin = [&](int cell, std::vector<int> &pc, std::vector<int> &px, std::vector<int> &py) {
+    pc.push_back(cell);
+    px.push_back((int)g.range(-2, c.cellWidth()[cell] + 2));
+    py.push_back((int)g.range(-2, c.cellHeight()[cell] + 2));
+  };
+  if (kind == 1 || n == 0) return;
+  std::vector<int> fixed;
+  for (int i = 0; i < n; ++i)
+    if (c.isFixed(i)) fixed.push_back(i);
+  if (kind == 4 && fixed.empty()) kind = 2;
+  int nn = kind == 0 ? (int)g.range(1, 2 * n + 1) : (int)g.range(1, n + 1);
+  for (int k = 0; k < nn; ++k) {
+    std::vector<int> pc, px, py;
+    if (kind == 0) {
+      int deg = g.range(1, 5);
+      for (int d = 0; d < deg; ++d) pin((int)g.range(0, n - 1), pc, px, py);
+    } else if (kind == 2) {
+      pin((int)g.range(0, n - 1), pc, px, py);
+    } else if (kind == 3) {
+      int cell = g.range(0, n - 1), deg = g.range(2, 4);
+      for (int d = 0; d < deg; ++d) pin(cell, pc, px, py);
+      if (g.chance(1, 2))
+        for (int d = 1; d < deg; ++d) { px[d] = px[0]; py[d] = py[0]; }
+    } else {
+      int deg = g.range(1, 4);
+      for (int d = 0; d < deg; ++d) pin(g.pick(fixed), pc, px, py);
+    }
+    c.addNet(pc, px, py);
+  }
 }
 
 static Case genCase(uint64_t seed, long long k, bool bigger) {
@@ -387,9 +518,16 @@ static Case genCase(uint64_t seed, long long k, bool bigger) {
   o.maxCells = bigger ? 30 : 10;
   o.splitRows = g.chance(1, 2);
   o.fixedCells = g.chance(3, 4);
+  o.nets = false;
   for (int attempt = 0;; ++attempt) {
     Circuit c = vc::genCircuit(g, o, &cs.info);
     if (inDomain(c, cs.info)) { cs.circ.reset(new Circuit(c)); break; }
+  }
+  {
+    int nk = g.range(0, 11);
+    cs.netKind = nk < 7 ? 0 : nk - 7 + 1;  // 7/12 generic, 1/12 each: none, degree 1, one cell, fixed only; 1/12 generic again
+    if (cs.netKind > 4) cs.netKind = 0;
+    addNets(g, *cs.circ, cs.netKind);
   }
   // a share of circuits gets movable cells of zero area (zero width or zero height); at least one
   // movable cell of positive area remains (C06 domain)
@@ -421,10 +559,22 @@ static Case genCase(uint64_t seed, long long k, bool bigger) {
 
 struct Snapshot { std::vector<int> x, y; bool have = false; };
 
+// progress of the forked child, readable by the parent when the child dies (assert / sanitizer /
+// timeout): number of UpperBound callbacks seen so far
+static volatile long long *sharedProgress() {
+  static volatile long long *p = (volatile long long *)mmap(nullptr, sizeof(long long), PROT_READ | PROT_WRITE, MAP_SHARED | MAP_ANONYMOUS, -1, 0);
+  return p;
+}
+
 // runs in the forked child; writes "F <what>" per failure and one "S ..." statistics line
 static void runPlacement(Case &cs, std::ostream &os) {
-  int nul = open("/dev/null", O_WRONLY);
-  if (nul >= 0) dup2(nul, 1);  // the library reports progress on stdout
+  // the library reports progress on stdout: kept in an unnamed temporary file, read back below only
+  // for the measured distribution (steps run, zero wirelength) — never for a verdict
+  int logFd = open("/tmp", O_TMPFILE | O_RDWR, 0600);
+  if (logFd < 0) logFd = open("/dev/null", O_WRONLY);
+  if (logFd >= 0) dup2(logFd, 1);
+  uint64_t digest = 1469598103934665603ull;  // of everything exposed (to compare two library builds)
+  auto mix = [&](long long v) { for (int b = 0; b < 8; ++b) { digest ^= (unsigned char)(v >> (8 * b)); digest *= 1099511628211ull; } };
   Circuit &c = *cs.circ;
   const int n = c.nbCells();
   Rectangle box = c.computePlacementArea();  // bounding box of the rows (independent recomputation below)
@@ -437,7 +587,9 @@ static void runPlacement(Case &cs, std::ostream &os) {
   Snapshot lastLB, lastUB;
   int nLB = 0, nUB = 0, nOther = 0, nFail = 0;
   long long maxAbs = 0;
-  auto fail = [&](const std::string &w) { if (nFail++ < 5) os << "F " << w << "\n"; };
+  // "F <UpperBound callbacks seen so far> <1 if raised by / seen right after a lower-bound solve> <what>"
+  bool inLB = false;
+  auto fail = [&](const std::string &w) { if (nFail++ < 5) os << "F " << nUB << " " << (inLB ? 1 : 0) << " " << w << "\n"; };
   auto sane = [&](const char *when) {
     for (int i = 0; i < n; ++i) {
       for (int v : {c.cellX()[i], c.cellY()[i]}) {
@@ -453,13 +605,35 @@ static void runPlacement(Case &cs, std::ostream &os) {
       }
     }
   };
+  auto logStats = [&]() {  // "L <loop steps logged> <1 if every logged UB value is exactly 0> <digest>"
+    std::cout.flush();
+    fflush(stdout);
+    std::string all;
+    char buf[65536];
+    ssize_t r;
+    if (lseek(logFd, 0, SEEK_SET) == 0)
+      while ((r = read(logFd, buf, sizeof buf)) > 0) all.append(buf, r);
+    int nSteps = 0;
+    bool allZero = true;
+    for (size_t p = all.find("\tUB "); p != std::string::npos; p = all.find("\tUB ", p + 1)) {
+      ++nSteps;
+      size_t e = all.find_first_of("\t\n", p + 4);
+      if (all.substr(p + 4, e == std::string::npos ? std::string::npos : e - p - 4) != "0") allZero = false;
+    }
+    os << "L " << nSteps << " " << (nSteps > 0 && allZero ? 1 : 0) << " " << digest << "\n";
+  };
   PlacementCallback cb = [&](PlacementStep st) {
+    mix((long long)st);
+    for (int i = 0; i < n; ++i) { mix(c.cellX()[i]); mix(c.cellY()[i]); }
     if (st == PlacementStep::LowerBound) {
       ++nLB;
+      inLB = true;
       sane("LowerBound callback");
+      inLB = false;
       lastLB.x = c.cellX(); lastLB.y = c.cellY(); lastLB.have = true;
     } else if (st == PlacementStep::UpperBound) {
       ++nUB;
+      *sharedProgress() = nUB;
       sane("UpperBound callback");
       lastUB.x = c.cellX(); lastUB.y = c.cellY(); lastUB.have = true;
       for (int i = 0; i < n; ++i) {
@@ -481,11 +655,19 @@ static void runPlacement(Case &cs, std::ostream &os) {
   try {
     c.placeGlobal(cs.params, cb);
   } catch (const std::exception &e) {
+    // the only error the statement's domain can meet is the non-finite check after a lower-bound solve
+    inLB = std::string(e.what()).find("non-finite") != std::string::npos;
     fail(std::string("placeGlobal raised ") + vc::exClass(e) + ": " + e.what());
+    inLB = false;
+    os << "X " << nLB << " " << nUB << "\n";
     os << "S " << nLB << " " << nUB << " " << nOther << " " << maxAbs << " 0\n";
+    mix(-1);
+    logStats();
     return;
   }
   sane("after return");
+  for (int i = 0; i < n; ++i) { mix(c.cellX()[i]); mix(c.cellY()[i]); }
+  logStats();
   int moved = 0, nB = 0;
   if (!lastLB.have || !lastUB.have) {
     fail("placeGlobal returned without exposing both a lower-bound and an upper-bound placement");
@@ -560,16 +742,34 @@ static std::unique_ptr<Circuit> parseCircuit(const std::vector<std::string> &lin
   return circ;
 }
 
+static std::ofstream *digestOut = nullptr;  // "<case> <status> <loop steps> <zero wirelength> <digest>" per end-to-end case
+
 static void oracleCase(vh::Out &out, uint64_t seed, long long k, bool bigger, const std::string &corpusFile = "") {
   Case cs;
   std::string id = "e" + std::to_string(k);
   if (corpusFile.empty()) cs = genCase(seed, k, bigger);
   else {
-    cs.circ = parseCircuit(vh::readLines(corpusFile));
+    std::vector<std::string> lines = vh::readLines(corpusFile);
+    cs.circ = parseCircuit(lines);
     cs.params = ColoquinteParameters(3, 0);
     cs.params.global.maxNbSteps = 10;
     cs.effort = 3;
-    cs.desc = "corpus " + corpusFile.substr(corpusFile.find_last_of('/') + 1) + " effort=3 seed=0 steps=10 (defaults otherwise)";
+    cs.netKind = -1;
+    for (const std::string &ln : lines) {  // optional "param <name> <value>" lines
+      std::istringstream is(ln);
+      std::string kw, name;
+      double v;
+      if (!(is >> kw >> name >> v) || kw != "param") continue;
+      auto &gp = cs.params.global;
+      if (name == "effort") { int sd = cs.params.seed; cs.params = ColoquinteParameters((int)v, sd); cs.params.global.maxNbSteps = 10; cs.effort = (int)v; }
+      else if (name == "maxNbSteps") gp.maxNbSteps = (int)v;
+      else if (name == "gapTolerance") gp.gapTolerance = v;
+      else if (name == "distanceTolerance") gp.distanceTolerance = v;
+      else if (name == "penalty.updateFactor") gp.penalty.updateFactor = v;
+      else if (name == "penalty.initialValue") gp.penalty.initialValue = v;
+    }
+    cs.desc = "corpus " + corpusFile.substr(corpusFile.find_last_of('/') + 1) + " seed=0 (effort defaults except the param lines; steps=10 unless given) " +
+              describeParams(cs.params, cs.effort, false);
     cs.info.rowHeight = cs.circ->nbRows() ? cs.circ->rows()[0].height() : 0;
     for (int i = 0; i < cs.circ->nbCells(); ++i) {
       if (cs.circ->isFixed(i)) cs.info.nFixed++;
@@ -584,6 +784,7 @@ static void oracleCase(vh::Out &out, uint64_t seed, long long k, bool bigger, co
   out.impl << "case " << id << "\n";
   if (allRowsClippedAway(*cs.circ, cs.params.global.roughLegalization.sideMargin)) out.count("e2e_all_rows_clipped_away");
   std::string res, diag;
+  *sharedProgress() = 0;
   std::string st = vh::isolated([&](std::ostream &os) { runPlacement(cs, os); }, res, 300, &diag);
   const auto &gp = cs.params.global;
   out.count("e2e_cases");
@@ -593,20 +794,84 @@ static void oracleCase(vh::Out &out, uint64_t seed, long long k, bool bigger, co
   out.count(std::string("e2e_blend_") + ((float)gp.exportBlending == 0.0f ? "0" : ((float)gp.exportBlending == 1.0f ? "1" : (gp.exportBlending < 0 || gp.exportBlending > 1 ? "outside01" : "inside01"))));
   out.count("e2e_rowheight_" + std::to_string(cs.info.rowHeight));
   out.count("e2e_movable_" + std::string(cs.info.nMovable <= 3 ? "1-3" : (cs.info.nMovable <= 8 ? "4-8" : "9+")));
+  {
+    static const char *nk[] = {"generic", "none", "degree1_only", "one_cell_per_net", "fixed_cells_only"};
+    if (cs.netKind >= 0) out.count(std::string("e2e_nets_") + nk[cs.netKind]);
+    int ms = gp.maxNbSteps;
+    out.count(std::string("e2e_maxsteps_") + (ms <= 10 ? "1-10" : (ms <= 60 ? "11-60" : (ms < 400 ? "61-399" : "400"))));
+    double uf = gp.penalty.updateFactor;
+    out.count(std::string("e2e_updatefactor_") + (uf < 1.25 ? "1-1.25" : (uf < 1.5 ? "1.25-1.5" : (uf < 1.9 ? "1.5-1.9" : "1.9-2"))));
+    if (gp.gapTolerance == 0.0) out.count("e2e_gap_test_disabled");
+    if (gp.distanceTolerance == 0.0) out.count("e2e_distance_test_disabled");
+    if (!std::isfinite(penaltyAfter(cs.params, gp.maxNbSteps - gp.nbInitialSteps))) out.count("e2e_penalty_would_overflow_at_step_limit");
+  }
   if (cs.info.nFixed) out.count("e2e_with_fixed");
   if (cs.nZeroArea) out.count("e2e_with_zero_area_movable_cells");
   if (cs.redrawn) out.count("e2e_params_redrawn_after_check_rejection", cs.redrawn);
   if (cs.info.utilisation > 1.0) out.count("e2e_overfull");
   if (st != "ok") {
-    out.fail(id, "placeGlobal did not complete: " + st + " — " + diag.substr(0, 600), input);
+    // the child died: classify with the last progress it published (conservatively one step back)
+    long long k = std::max(0LL, (long long)*sharedProgress() - 2);
+    Drift d = driftAfter(cs.params, k);
+    bool zw = false;  // unknown here (the log died with the child): decided structurally
+    zw = cs.netKind == 1 || cs.netKind == 2;
+    std::string kf = (d.outOfBox && !zw && st != "timeout") ? "KF-C06-1" : "";
+    out.count(kf.empty() ? "e2e_failures_unclassified" : "e2e_failures_after_drift_out_of_numeric_box");
+    out.fail(id, "placeGlobal did not complete: " + st + " [after at least " + std::to_string(k) + " updates of the loop variables: " + d.text + "] — " + diag.substr(0, 600), input, kf);
+    if (digestOut) *digestOut << id << " " << st << " - - -\n";
     return;
   }
   std::istringstream is(res);
   std::string ln;
   bool stats = false;
+  // the log line first: whether the run's wirelength was identically zero
+  bool zeroWirelength = false;
+  long long xUB = -1;
+  {
+    std::istringstream xs(res);
+    std::string xl;
+    while (std::getline(xs, xl)) {
+      std::istringstream ss(xl.size() > 2 ? xl.substr(2) : "");
+      long long a = 0, b = 0;
+      if (xl.rfind("L ", 0) == 0) { ss >> a >> b; zeroWirelength = b != 0; }
+      else if (xl.rfind("X ", 0) == 0) { ss >> a >> xUB; }
+    }
+  }
   while (std::getline(is, ln)) {
-    if (ln.rfind("F ", 0) == 0) out.fail(id, ln.substr(2), input);
-    else if (ln.rfind("B ", 0) == 0) {
+    if (ln.rfind("F ", 0) == 0) {
+      std::istringstream fs(ln.substr(2));
+      long long fUB = 0, fLB = 0;
+      fs >> fUB >> fLB;
+      std::string what;
+      std::getline(fs, what);
+      if (!what.empty() && what[0] == ' ') what.erase(0, 1);
+      // completed executions of the update block of GlobalPlacer::run when the failing state was
+      // computed: exactly (UB callbacks - 1) for a lower-bound solve; for the other observation
+      // points (UB callback, after return) the state comes from the previous solve: one less
+      long long k = std::max(0LL, fLB ? fUB - 1 : fUB - 2);
+      Drift d = driftAfter(cs.params, k);
+      std::string kf = (d.outOfBox && !zeroWirelength) ? "KF-C06-1" : "";
+      // KF-C06-2: the non-finite error raised by one of the solves without penalty (no UpperBound
+      // callback yet) on a circuit with a floating group of movable cells
+      bool floatingInitial = fLB && fUB == 0 && xUB == 0 && hasFloatingComponent(*cs.circ);
+      if (kf.empty() && floatingInitial) kf = "KF-C06-2";
+      out.count(kf.empty() ? "e2e_failures_unclassified" : (kf == "KF-C06-1" ? "e2e_failures_after_drift_out_of_numeric_box" : "e2e_failures_initial_solve_floating_group"));
+      if (floatingInitial) what += " [raised by a solve without penalty; the circuit has a group of movable cells connected by nets without any fixed pin]";
+      what += " [after " + std::to_string(k) + " updates of the loop variables: " + d.text + (zeroWirelength ? "; zero wirelength" : "") + "]";
+      out.fail(id, what, input, kf);
+    } else if (ln.rfind("L ", 0) == 0) {
+      std::istringstream ss(ln.substr(2));
+      long long nSteps, zero;
+      std::string dg;
+      ss >> nSteps >> zero >> dg;
+      if (zero) out.count("e2e_zero_wirelength");
+      out.count("e2e_loop_steps", nSteps);
+      if (nSteps >= gp.maxNbSteps - gp.nbInitialSteps) out.count("e2e_ran_to_step_limit");
+      if (nSteps == 1) out.count("e2e_stopped_at_first_step");
+      out.dist["e2e_max_loop_steps"] = std::max(out.dist["e2e_max_loop_steps"], nSteps);
+      if (xUB >= 0) out.count("e2e_raised");
+      if (digestOut) *digestOut << id << " " << (xUB >= 0 ? "raised" : "ok") << " " << nSteps << " " << zero << " " << dg << "\n";
+    } else if (ln.rfind("B ", 0) == 0) {
       out.ops << "blend " << dyadic((float)gp.exportBlending) << " " << ln.substr(2) << "\n";
       out.impl << "within\n";
     } else if (ln.rfind("S ", 0) == 0) {
@@ -674,8 +939,12 @@ int main(int argc, char **argv) {
     gridCase(out, id, g);
   }
   // (b) corpus witnesses first
+  std::ofstream digestFile(a.out + "/e2e_digest.txt");
+  digestOut = &digestFile;
   if (!a.corpus.empty()) {
-    static const char *files[] = {"all-rows-clipped-away.circ", "tall-cell-rows-5H.circ", "zero-width-movable-cell.circ"};
+    static const char *files[] = {"all-rows-clipped-away.circ", "tall-cell-rows-5H.circ", "zero-width-movable-cell.circ",
+                                  "no-nets-400-steps.circ", "penalty-overflow-no-stop-test.circ",
+                                  "floating-self-nets-default-params.circ"};
     long long ci = 0;
     for (const char *f : files) {
       std::string path = a.corpus + "/" + f;
@@ -684,11 +953,65 @@ int main(int argc, char **argv) {
       ++ci;
     }
   }
-  // (b)
-  long long nb = a.thorough() ? 12000 : (a.search() ? 4000 : 1500);
-  for (long long k = 0; k < nb; ++k) {
-    if (only >= 0 && !(onlyKind == "e" && only == k)) continue;
-    oracleCase(out, a.seed, k, a.thorough() && k % 4 == 3);
+  // (b) generated cases; every case is seeded by (seed, k) alone, so the split over worker processes
+  // (each with its own output directory, merged below) does not change what is run
+  long long nb = a.thorough() ? 40000 : (a.search() ? 8000 : 5000);
+  auto isBigger = [&](long long k) { return a.thorough() ? (k / 16) % 4 == 3 : (k / 16) % 8 == 7; };  // spread evenly over 16 workers
+  if (only >= 0) {
+    for (long long k = 0; k < nb; ++k)
+      if (onlyKind == "e" && only == k) oracleCase(out, a.seed, k, isBigger(k));
+  } else {
+    int W = std::max(1u, std::min(16u, std::thread::hardware_concurrency()));
+    out.ops.flush(); out.impl.flush(); out.oracle.flush(); digestFile.flush();
+    std::vector<pid_t> pids;
+    for (int w = 0; w < W; ++w) {
+      std::string wd = a.out + "/w" + std::to_string(w);
+      mkdir(wd.c_str(), 0700);
+      pid_t pid = fork();
+      if (pid == 0) {
+        vh::Out wout(wd);
+        std::ofstream wdig(wd + "/digest.txt");
+        digestOut = &wdig;
+        for (long long k = w; k < nb; k += W) oracleCase(wout, a.seed, k, isBigger(k));
+        std::ofstream ex(wd + "/extras.txt");
+        ex << "E " << wout.evaluations << "\n";
+        for (auto &kv : wout.dist) ex << "D " << kv.second << " " << kv.first << "\n";
+        for (uint64_t h : wout.distinctNontrivial) ex << "N " << h << "\n";
+        for (auto &sm : wout.samples) ex << "S " << sm << "\n";
+        ex.close();
+        wdig.close();
+        wout.finish();
+        _exit(0);
+      }
+      pids.push_back(pid);
+    }
+    bool workersOk = true;
+    for (pid_t pid : pids) { int st = 0; waitpid(pid, &st, 0); if (!(WIFEXITED(st) && WEXITSTATUS(st) == 0)) workersOk = false; }
+    digestOut = &digestFile;
+    for (int w = 0; w < W; ++w) {
+      std::string wd = a.out + "/w" + std::to_string(w);
+      for (auto &l : vh::readLines(wd + "/ops.txt")) out.ops << l << "\n";
+      for (auto &l : vh::readLines(wd + "/impl.txt")) out.impl << l << "\n";
+      for (auto &l : vh::readLines(wd + "/oracle.txt")) if (!l.empty()) { out.oracle << l << "\n"; ++out.failures; }
+      for (auto &l : vh::readLines(wd + "/digest.txt")) digestFile << l << "\n";
+      bool haveExtras = false;
+      for (auto &l : vh::readLines(wd + "/extras.txt")) {
+        haveExtras = true;
+        std::istringstream is(l);
+        std::string kw;
+        is >> kw;
+        if (kw == "E") { long long e; is >> e; out.evaluations += e; }
+        else if (kw == "D") {
+          long long v; std::string key; is >> v >> key;
+          if (key.rfind("e2e_max_", 0) == 0) out.dist[key] = std::max(out.dist[key], v); else out.dist[key] += v;
+        } else if (kw == "N") { uint64_t h; is >> h; out.nontrivial(h); }
+        else if (kw == "S") out.sample(l.substr(2));
+      }
+      if (!haveExtras) workersOk = false;
+      for (const char *f : {"/ops.txt", "/impl.txt", "/oracle.txt", "/digest.txt", "/extras.txt", "/stats.json"}) unlink((wd + f).c_str());
+      rmdir(wd.c_str());
+    }
+    if (!workersOk) out.fail("workers", "an end-to-end worker process of the harness did not finish", "");
   }
   out.finish();
   return 0;
